@@ -124,3 +124,32 @@ pub fn take_vec<T>(dest: &mut Vec<T>) -> (r: Vec<T>) ensures r@ == old(dest)@, f
 // std: a Vec never holds more than isize::MAX bytes, so for a non-zero-sized element type len <= isize::MAX
 #[verifier::external_body]
 pub proof fn axiom_vec_len_le_isize_max<T>(v: &Vec<T>) ensures v@.len() <= isize::MAX { }
+
+// ---- thin wrappers of src/ipc.rs (U7b) ----
+pub struct IpcReceiver<T> { pub os_receiver: OsIpcReceiver, pub phantom: PhantomData<T> }
+pub struct OpaqueIpcSender { pub os_sender: OsIpcSender }
+pub struct OpaqueIpcReceiver { pub os_receiver: OsIpcReceiver }
+pub struct IpcBytesReceiver { pub os_receiver: OsIpcReceiver }
+pub struct IpcBytesSender { pub os_sender: OsIpcSender }
+pub enum IpcError { Bincode(bincode::Error), Io(io::Error), Disconnected }
+pub enum TryRecvError { IpcError(IpcError), Empty }
+pub uninterp spec fn conv_ipc(e: UnixError) -> IpcError;
+pub uninterp spec fn conv_try(e: UnixError) -> TryRecvError;
+// `err.into()` at type IpcError / TryRecvError: the From impls verified in unit U4b
+#[verifier::external_body]
+pub fn into_ipc_error(e: UnixError) -> (r: IpcError) ensures r == conv_ipc(e), (r is Disconnected) <==> (e is ChannelClosed) { unimplemented!() }
+#[verifier::external_body]
+pub fn into_try_recv_error(e: UnixError) -> (r: TryRecvError)
+    ensures r == conv_try(e), (r matches TryRecvError::IpcError(IpcError::Disconnected)) <==> (e is ChannelClosed) { unimplemented!() }
+pub struct OsRecv { pub ok: bool, pub data: Seq<u8> }
+impl OsIpcReceiver {
+    // platform receives (unit U3): the stub records what the transport handed up
+    #[verifier::external_body]
+    pub fn recv(&self, Tracked(g): Tracked<&mut Seq<OsRecv>>) -> (r: Result<(Vec<u8>, Vec<OsOpaqueIpcChannel>, Vec<OsIpcSharedMemory>), UnixError>)
+        ensures *final(g) == old(g).push(OsRecv { ok: r is Ok, data: if r is Ok { r->Ok_0.0@ } else { Seq::empty() } })
+    { unimplemented!() }
+    #[verifier::external_body]
+    pub fn try_recv(&self, Tracked(g): Tracked<&mut Seq<OsRecv>>) -> (r: Result<(Vec<u8>, Vec<OsOpaqueIpcChannel>, Vec<OsIpcSharedMemory>), UnixError>)
+        ensures *final(g) == old(g).push(OsRecv { ok: r is Ok, data: if r is Ok { r->Ok_0.0@ } else { Seq::empty() } })
+    { unimplemented!() }
+}
